@@ -250,6 +250,15 @@ func Run(p *Program, o Opts) (*Result, error) {
 	return Analyze(ld, o), nil
 }
 
+// RunOrder = LoadOrder + Analyze: reverseParse gives later-listed files of a package the LOWER positions.
+func RunOrder(p *Program, o Opts, reverseParse bool) (*Result, error) {
+	ld, err := LoadOrder(p, reverseParse)
+	if err != nil {
+		return nil, err
+	}
+	return Analyze(ld, o), nil
+}
+
 // Keys returns the sorted multiset of file:line:code keys of ds restricted to analyzers in only
 // (all analyzers when only is empty).
 func Keys(ds []Diag, only ...string) []string {
